@@ -193,7 +193,7 @@ theorem setState_select : ∀ (decl : List Name) (n : Nat) (σa σb : TSt) (sa s
     (setState decl (selectOuts n sa sb) τ).env y =
       if y ∈ decl.take n then σa.env y else if y ∈ decl then σb.env y else τ.env y
   | [], n, σa, σb, sa, sb, τ, y, _, ha, hb => by
-      simp [getState] at ha hb; subst ha; subst hb; simp [selectOuts, setState]
+      simp [getState] at ha hb; subst ha; subst hb; simp [setState]
   | x :: xs, 0, σa, σb, sa, sb, τ, y, _, _, hb => by
       simp only [selectOuts, List.take_zero, List.drop_zero, List.nil_append]
       rw [setState_getState (x :: xs) σb sb τ y hb]
